@@ -142,7 +142,10 @@ def main():
     rep = Report('C08', tier, 'exploration')
     bases = [0, 130000, 258000]        # 130000: the sweep crosses offset 131072, where the 131200-unit scan buffer is first compacted; 258000: well after it
     jobs = []
+    nprobes = int(os.environ.get('C08_PROBES', len(PROBES)))
     for pi, (name, hdr, body) in enumerate(PROBES):
+        if pi >= nprobes:
+            break
         for style in STYLES:
             hlen = len(render(hdr, style))
             m = len(render(body, style, 1))
